@@ -25,6 +25,9 @@ VERIF = os.path.dirname(os.path.dirname(os.path.abspath(__file__)))
 HARNESS = os.environ.get("AISVERIF_HARNESS", os.path.join(VERIF, "harness"))
 BUILD = os.environ.get("AISVERIF_BUILD", os.path.join(VERIF, ".build"))
 WORK = os.environ.get("AISVERIF_WORK", os.path.join(VERIF, ".work"))
+# scratch files carry the id of this invocation, so that two runs of the same check (another tier or
+# seed started at the same time) never read or remove each other's shard reports
+RUNID = "p%d" % os.getpid()
 REPO = os.environ.get("AISVERIF_REPO", "/repo")
 OUT = os.environ.get("AISVERIF_OUT", VERIF)
 NCPU = min(16, os.cpu_count() or 4)
@@ -137,7 +140,7 @@ def build_all(pairs):
 
 def run_shard(check, profile, cfg, tier, seed, shard, nshards, scale=None, extra_env=None, timeout=3600):
     os.makedirs(WORK, exist_ok=True)
-    out = os.path.join(WORK, "%s-%s-%s-%d.json" % (check, profile, cfg, shard))
+    out = os.path.join(WORK, "%s-%s-%s-%d-%s.json" % (check, profile, cfg, shard, RUNID))
     if os.path.exists(out):
         os.remove(out)
     cmd = [binpath(profile, cfg), "run", check, "--tier", tier, "--seed", str(seed),
@@ -165,7 +168,7 @@ def run_shard(check, profile, cfg, tier, seed, shard, nshards, scale=None, extra
 def trace_rerun(job, check, tier, seed, nshards):
     """A shard died abnormally (stall, abort, signal): re-run it in trace mode; if it dies
     again the last traced input is the witness, otherwise the death is inconclusive."""
-    tr = os.path.join(WORK, "trace-%s-%s-%s-%d.txt" % (check, job["profile"], job["cfg"], job["shard"]))
+    tr = os.path.join(WORK, "trace-%s-%s-%s-%d-%s.txt" % (check, job["profile"], job["cfg"], job["shard"], RUNID))
     if os.path.exists(tr):
         os.remove(tr)
     again = run_shard(check, job["profile"], job["cfg"], tier, seed, job["shard"], nshards,
